@@ -46,7 +46,7 @@ func (p *PcClient) GetRemoteProcessesState() (*types.ProcessesState, error) {
 }
 
 func (p *PcClient) getProcessState(name string) (*types.ProcessState, error) {
-	url := fmt.Sprintf("http://%s/process/%s", p.address, name)
+	url := fmt.Sprintf("http://%s/process/%s", p.address, pathSegment(name))
 	resp, err := p.client.Get(url)
 	if err != nil {
 		return nil, err
@@ -72,7 +72,7 @@ func (p *PcClient) getProcessState(name string) (*types.ProcessState, error) {
 }
 
 func (p *PcClient) getProcessInfo(name string) (*types.ProcessConfig, error) {
-	url := fmt.Sprintf("http://%s/process/info/%s", p.address, name)
+	url := fmt.Sprintf("http://%s/process/info/%s", p.address, pathSegment(name))
 	resp, err := p.client.Get(url)
 	if err != nil {
 		return nil, err
@@ -93,7 +93,7 @@ func (p *PcClient) getProcessInfo(name string) (*types.ProcessConfig, error) {
 }
 
 func (p *PcClient) getProcessPorts(name string) (*types.ProcessPorts, error) {
-	url := fmt.Sprintf("http://%s/process/ports/%s", p.address, name)
+	url := fmt.Sprintf("http://%s/process/ports/%s", p.address, pathSegment(name))
 	resp, err := p.client.Get(url)
 	if err != nil {
 		return nil, err
